@@ -1,5 +1,6 @@
 """Tier drivers: build, explore, triage violations (known findings / minimise / replay file), evidence."""
 import json
+import os
 
 from . import build, common, proc
 from .common import log
@@ -37,6 +38,11 @@ def triage(prop, seed, violations, minimise, reproduce_class, max_minimise=6):
         with open(path) as f:
             again = reproduce_class(json.load(f))
         status = "reproduced" if again else "NOT-reproduced-on-replay"
+        if not again and str(payload.get("class", "")).startswith("hang"):
+            # the only wall-clock-dependent verdict: a timeout that does not come back on replay was machine load, not a hang
+            log("ANOMALY: %s timed out once but finished on replay (%s); not reported" % (key, path))
+            os.remove(path)
+            continue
         print("VIOLATION property=%s replay=%s" % (prop, path))
         log("  class=%s key=%s (%s)" % (payload.get("class"), key, status))
         new += 1
